@@ -122,6 +122,9 @@ class Stream:
         for q, r, mo, me in zip(self.req, self.real, model, self.meta):
             ctx.dist(f'{self.name}:{r.split()[0]}' + (':' + r.split()[1] if r.startswith('err') else ''))
             if r != mo:
+                if getattr(self, 'tolerate_model_reject', False) and mo.startswith('err'):
+                    ctx.dist(f'{self.name}:model-rejects-accepted-input')   # accept/reject is not this property's business
+                    continue
                 bad.append((q, r, mo, me))
         for q, r, mo, me in bad[:1]:
             ctx.sample({'stream': self.name, 'request': q, 'real': r, 'model': mo, 'DISAGREE': True})
@@ -392,6 +395,8 @@ def correspond(ctx):
     stream_nonstereogenic(ctx)
     stream_wedges(ctx)
     stream_wedge_model(ctx)
+    stream_parser(ctx)
+    ctx.cov['programs'] += 2   # parser(), postprocess_molecule cis/trans loop
     ctx.cov['programs'] += 3   # SDFRead/add_wedge, SDFWrite/_wedge_map, calculate_cis_trans_from_2d
     ctx.cov['programs'] += 3   # __chiral_centers via chiral_cis_trans, fix_stereo, stereogenic_* properties
     ctx.exhaustive = not ctx.quick
@@ -1699,6 +1704,7 @@ def wedge_case(smi):
                       f'(= {got!r})')
     b2 = chy_to_block(m)
     back = rd_canon_block(b2)
+    back = rd_canon(back) if back else back   # re-read as SMILES: drops E/Z RDKit assigns from 2-D to non-stereogenic bonds
     if back != got:
         return True, f'{smi!r}: chython holds {str(m)!r} (= {got!r}) but writes wedges that RDKit reads as {back!r}'
     return False, f'{smi!r}: wedge read and wedge write agree with RDKit ({got!r})'
@@ -1729,7 +1735,7 @@ def wedge_case_explicit_h(smi):
         return True, f'{smi!r}: RDKit cannot read the mol block chython wrote'
     for a in r2.GetAtoms():
         a.SetAtomMapNum(0)
-    back = Chem.MolToSmiles(Chem.RemoveHs(r2))
+    back = rd_canon(Chem.MolToSmiles(Chem.RemoveHs(r2)))
     if back != can:
         return True, f'{smi!r} with explicit H on the centres: chython holds {got!r} but writes wedges that RDKit reads as {back!r}'
     return False, f'{smi!r}: explicit-H wedge read and write agree with RDKit'
@@ -1837,3 +1843,142 @@ def stream_wedge_model(ctx):
             mol._atoms[c]._stereo = None
     aw.run()
     ws.run()
+
+
+# ---- K: parser bookkeeping (order / stereo_atoms / stereo_bonds / starts) and the reader's cis-trans calls -------------
+
+def tok_wire(tokens):
+    """real `smiles_tokenize` output -> wire ints; None when a token type outside the SMILES model occurs"""
+    out = []
+    for t, v in tokens:
+        if t in (0, 8):
+            out += [0, int(t == 8), tri(v.get('stereo'))]
+        elif t == 1:
+            out += [1, int(v)]
+        elif t == 9:
+            out += [9, int(bool(v))]
+        elif t == 4:
+            out += [4]
+        elif t == 2:
+            out += [2]
+        elif t == 3:
+            out += [3]
+        elif t == 6:
+            out += [6, int(v)]
+        else:
+            return None
+    return out
+
+
+def render_parse(d):
+    n = len(d['atoms'])
+    bonds = ' '.join(f'{a}-{b}' for a, b, o in d['bonds'])
+    order = ' '.join('[' + ','.join('N' if x is None else str(x) for x in d['order'].get(i, [])) + ']' for i in range(n))
+    sa = ' '.join(f'{i}:{int(m)}' for i, m in d['stereo_atoms'].items())
+    sb = ' '.join(f'{a}>' + ','.join(f'{b}:{int(v)}' for b, v in l.items()) for a, l in d['stereo_bonds'].items())
+    st = ','.join(map(str, sorted(d['starts'])))
+    return f"ok n={n} | {bonds} | {order} | {sa} | {sb} | {st}"
+
+
+def corrupt(rng, smi):
+    ops = '()/\\.=#1234%-'
+    i = rng.randrange(len(smi) + 1)
+    r = rng.random()
+    if r < 0.4 and smi:
+        i = min(i, len(smi) - 1)
+        return smi[:i] + smi[i + 1:]
+    if r < 0.8:
+        return smi[:i] + rng.choice(ops) + smi[i:]
+    j = rng.randrange(len(smi) + 1)
+    return smi[:min(i, j)] + smi[max(i, j):]
+
+
+def stream_parser(ctx):
+    from chython.files.daylight.tokenize import smiles_tokenize
+    from chython.files.daylight.parser import parser
+    from chython.exceptions import IncorrectSmiles
+    from chython import smiles
+    from .. import molgen
+    po = Stream(ctx, 'parser_stereo_bookkeeping')
+    po.tolerate_model_reject = True
+    rc_req = []
+    rng = ctx.rng
+    inputs = []
+    for spec in tetra_specs() + cage_specs() + dbond_specs() + [s for s, _ in ring_db_specs()[::3]]:
+        for sp in (spec, spec.mirror()):
+            inputs += [s for s, *_ in spellings(sp, rng, 8 if ctx.quick else 60)]
+    cs = molgen.corpus_smiles()
+    inputs += rng.sample(cs, 300) if ctx.quick else cs
+    inputs += ['C1=C/CCCCOCC\\1', 'C\\1=C/CCCCOCC/1', 'C/1=C/CCCCOCC/1', 'F/C=C1.Cl\\1', 'C-1=C/CCCCOCC\\1', 'C=1CC/1', 'C/1CC=1',
+               'C.[C@H](F)(Cl)Br', 'C1.[C@H]1(F)Cl', 'C(.[C@H](F)(Cl)Br)', 'c1ccccc1', 'c1cc[nH]c1', 'C1CC-1', 'C-1CC1', 'C=1CC1', 'C1CC=1',
+               'C=1CC-1', 'C12CC1C2', 'C%10CC%10', 'C(C)(C)C', 'C((C))', 'C(C', 'C)C', 'CC(', 'C1CC', 'C=', '=C', 'C..C', 'C.(C)', 'C=(C)', 'C1.C1',
+               'C.1CC1', 'C/C=C/C', 'C/=C', 'C//C']
+    base = list(inputs)
+    for smi in rng.sample(base, min(len(base), 150 if ctx.quick else 3000)):
+        inputs.append(corrupt(rng, smi))
+    seen = set()
+    for smi in inputs:
+        if smi in seen or not smi:
+            continue
+        seen.add(smi)
+        try:
+            toks = list(smiles_tokenize(smi))
+        except Exception:
+            ctx.dist('parser:tokenizer-rejects')
+            continue
+        w = tok_wire(toks)
+        if w is None or not toks:
+            continue
+        for strong in (0, 1):
+            toks2 = [(t, dict(v) if isinstance(v, dict) else v) for t, v in toks]
+            try:
+                d = parser(toks2, bool(strong))
+                real = render_parse(d)
+            except Exception as e:
+                # which strings are rejected (and how) is property C03; the stereo bookkeeping is compared on accepted input
+                ctx.dist(f'parser:real-rejects:{type(e).__name__}')
+                d = None
+                continue
+            po.add('po ' + ' '.join(map(str, [strong] + w)), real, {'kind': 'parser', 'smiles': smi, 'strong': strong},
+                   nontrivial=len(toks) > 1)
+        # reader: stereo_bonds -> add_cis_trans_stereo calls -> stored label of every double bond that ends up labelled
+        # (tied at the public observation point `bond.stereo`; which substituent the reader picks is not compared)
+        if d is not None and d['stereo_bonds']:
+            try:
+                mol = smiles(smi)
+            except Exception:
+                mol = None
+            if mol is not None:
+                sbw = [len(d['stereo_bonds'])]
+                for a_, l in d['stereo_bonds'].items():
+                    sbw += [a_ + 1, len(l)] + [x for b_, v in l.items() for x in (b_ + 1, int(v))]
+                ctc = mol._stereo_cis_trans_counterpart
+                cw = [len(ctc)] + [x for k_, v in ctc.items() for x in (k_, v)]
+                sct = mol.stereogenic_cis_trans
+                sw = [len(sct)]
+                for (n_, m_), env in sct.items():
+                    sw += [n_, m_] + ends_wire(env)
+                real = {}
+                for (n_, m_) in sct:
+                    i_, j_ = mol._stereo_cis_trans_centers[n_]
+                    st_ = mol._bonds[i_][j_].stereo
+                    if st_ is not None:
+                        real[f'{min(n_, m_)},{max(n_, m_)}'] = str(int(st_))
+                rc_req.append(('rct ' + ' '.join(map(str, sbw + cw + sw + lst(h_atoms(mol)))), real, smi))
+    po.run()
+    if rc_req and ctx.build_ok:
+        out = core.run_driver('C12', [q for q, *_ in rc_req])
+        bad = []
+        for (q, real, smi), mo in zip(rc_req, out):
+            ctx.count(q)
+            model = dict(x.split(':') for x in mo.split()[1:]) if mo.startswith('ok') else None
+            ok = model is not None and all(model.get(k_) == v for k_, v in real.items())
+            ctx.dist('reader_cis_trans_labels:' + ('ok' if ok else 'DISAGREE'))
+            if not ok:
+                bad.append((smi, real, mo))
+        if bad:
+            ctx.cov['disagreements_checked'] += len(bad)
+            ctx.broke('correspondence', 'reader_cis_trans_labels', f'{len(bad)} disagreements; first: {bad[0]}')
+            _state.setdefault('disagreements', []).extend(('reader_cis_trans_labels', {'kind': 'parser', 'smiles': b_[0]}) for b_ in bad[:50])
+        else:
+            ctx.sample({'stream': 'reader_cis_trans_labels', 'request': rc_req[0][0], 'real': rc_req[0][1], 'model': out[0]})
